@@ -30,7 +30,7 @@ def main(ctx, replay=None):
     records = []
     cfgs = ("EvecSort2.cfg", "EvecSort3.cfg") + (("EvecSort4.cfg",) if ctx.tier == "thorough" else ())      # n = 4: dominant class only
     for cfg in cfgs:
-        res = must_ok(run_tlc("EvecSort", cfg, ctx.subdir("tlc_" + cfg[:9]), workers=(8 if cfg == "EvecSort4.cfg" else 1), timeout=1800))
+        res = must_ok(run_tlc("EvecSort", cfg, ctx.subdir("tlc_" + cfg[:9]), workers=1, timeout=2400))
         ctx.add_tlc(res)
         records += printed_values(res.out, "SORT")
     if len(records) < 256 + 19683:
